@@ -245,6 +245,18 @@ impl Ck {
                                 }
                             }
                         }
+                        // The specification is silent on a field alias that equals another field's name or
+                        // alias (implementations differ): no verdict.
+                        let all_names: Vec<&str> = fields.iter().filter_map(|f| f.get("name").and_then(|n| n.as_str())).collect();
+                        let mut seen_alias = BTreeSet::new();
+                        for f in fields {
+                            let own = f.get("name").and_then(|n| n.as_str());
+                            for al in f.get("aliases").and_then(|a| a.as_array()).into_iter().flatten().filter_map(|x| x.as_str()) {
+                                if all_names.iter().any(|n| Some(*n) != own && *n == al) || !seen_alias.insert(al.to_string()) {
+                                    self.unclear("a field alias equals another field's name or alias");
+                                }
+                            }
+                        }
                     }
                 }
             }
